@@ -297,7 +297,15 @@ def cond_check(kind, case, rec):
         rec.label("dual-fields-taken-over-from-another-analysis")
     if prestart:
         f2[0].values[...] = ustart
-    s2 = fem.SolidBody(fem.NearlyIncompressible(um, bulk=bulk), f2)
+    # the explicit (u, p, J) formulation: either of the two wrappers (the three-field variation evaluates the material, incl. its
+    # volumetric part, at the modified deformation gradient; for a state-free material both describe the same problem)
+    if case["seed"] % 2 == 0 and not stateful:
+        full = fem.NeoHooke(mu=mu, bulk=bulk) if case["mat"] == "NeoHooke" else fem.CompositeMaterial(um, fem.Volumetric(bulk=bulk))
+        explicit = lambda: fem.ThreeFieldVariation(full)  # noqa
+        rec.label("explicit=ThreeFieldVariation")
+    else:
+        explicit = lambda: fem.NearlyIncompressible(um, bulk=bulk)  # noqa
+    s2 = fem.SolidBody(explicit(), f2)
     def solve(solid, field, steps):
         res = None
         levels = [case["move"] * k / steps for k in range(1, steps + 1)] + ([case["move"] * 0.4] if stateful else [])
@@ -329,7 +337,7 @@ def cond_check(kind, case, rec):
             f.values[...] = 0
         f2[2].values[...] = 1
         s1 = fem.SolidBodyNearlyIncompressible(um, f1, bulk=bulk)
-        s2 = fem.SolidBody(fem.NearlyIncompressible(um, bulk=bulk), f2)
+        s2 = fem.SolidBody(explicit(), f2)
         res1, res2 = attempt(4)
         rec.label("ramped")
     if res1 is None and res2 is None:
